@@ -61,9 +61,13 @@ def seeds():
     return "\n".join(out)
 
 
+def srcindex():
+    return subprocess.run(["python3", os.path.join(V, "tools", "src_index.py")], capture_output=True, text=True).stdout.strip()
+
+
 p = os.path.join(V, "DESIGN.md")
 s = open(p).read()
-for name, fn in (("fixes", fixes), ("open", open_findings), ("seeds", seeds)):
+for name, fn in (("fixes", fixes), ("open", open_findings), ("seeds", seeds), ("srcindex", srcindex)):
     pat = re.compile(r"(<!-- BEGIN:%s -->\n).*?(\n<!-- END:%s -->)" % (name, name), re.S)
     if not pat.search(s):
         print("marker missing:", name)
